@@ -9,7 +9,7 @@ for ID in "$@"; do
   for D in seeded/$ID-*; do
     [ -f "$D/patch.diff" ] || continue
     [ -f "$D/NOT-KEPT.md" ] && { echo "$D not-kept"; continue; }
-    if ! git -C /repo apply "$D/patch.diff" 2>/dev/null; then echo "$D PATCH-DOES-NOT-APPLY"; git -C /repo checkout -- .; continue; fi
+    if ! git -C /repo apply "/verif/$D/patch.diff" 2>/dev/null; then echo "$D PATCH-DOES-NOT-APPLY"; git -C /repo checkout -- .; continue; fi
     ./check "$ID" > out/regress_$(basename $D).log 2>&1; rc=$?
     git -C /repo checkout -- .
     was=$(jq -r '.detected' "$D/meta.json" 2>/dev/null)
